@@ -382,7 +382,7 @@ class VM:
                 key = self.stack.pop()
                 props.insert(0, (key, kind, value))
             for key, kind, value in props:
-                key_str = to_string(key) if not isinstance(key, str) else key
+                key_str = self._to_property_key(key)
                 if kind == "get":
                     obj.define_getter(key_str, value)
                 elif kind == "set":
@@ -631,7 +631,7 @@ class VM:
             key = self.stack.pop()
             if not isinstance(obj, JSObject):
                 raise JSTypeError("Cannot use 'in' operator on non-object")
-            key_str = to_string(key)
+            key_str = self._to_property_key(key)
             self.stack.append(obj.has(key_str))
 
         # Control flow
@@ -861,6 +861,14 @@ class VM:
         # If we get here, conversion failed
         raise JSTypeError("Cannot convert object to primitive value")
 
+    def _to_property_key(self, key: JSValue) -> str:
+        """ToPropertyKey: an object used as a key is reduced by ToPrimitive."""
+        if isinstance(key, str):
+            return key
+        if isinstance(key, JSObject):
+            key = self._to_primitive(key, "string")
+        return to_string(key)
+
     def _to_number(self, value: JSValue) -> Union[int, float]:
         """Convert to number, with ToPrimitive for objects."""
         if isinstance(value, JSObject):
@@ -1010,7 +1018,7 @@ class VM:
         if obj is UNDEFINED or obj is NULL:
             raise JSTypeError(f"Cannot read property of {obj}")
 
-        key_str = to_string(key) if not isinstance(key, str) else key
+        key_str = self._to_property_key(key)
 
         if isinstance(obj, JSArrayBuffer):
             if key_str == "byteLength":
@@ -2264,7 +2272,7 @@ class VM:
         if obj is UNDEFINED or obj is NULL:
             raise JSTypeError(f"Cannot set property of {obj}")
 
-        key_str = to_string(key) if not isinstance(key, str) else key
+        key_str = self._to_property_key(key)
 
         if isinstance(obj, JSTypedArray):
             try:
@@ -2320,7 +2328,7 @@ class VM:
     def _delete_property(self, obj: JSValue, key: JSValue) -> bool:
         """Delete property from object."""
         if isinstance(obj, JSObject):
-            key_str = to_string(key) if not isinstance(key, str) else key
+            key_str = self._to_property_key(key)
             return obj.delete(key_str)
         return False
 
